@@ -1,0 +1,72 @@
+//go:build verif
+
+// Contracts for package channel, read by the gvc verifier in /verif (build tag
+// "verif"). No code here: only the package clause and //@ lines.
+//
+// Streams are ghost state supplied by /verif/spec/deps/io.gvc: a reader r reads
+// the fixed logical stream rdIn(r)[0..rdLen(r)), rdPos(r) bytes of which have
+// been consumed; a writer w counts its Write calls in writes(w) and remembers
+// the last record in wrData(w)[0..wrLen(w)).
+
+package channel
+
+// ---------------------------------------------------------------------------
+// Split framing (C11, C12)
+// ---------------------------------------------------------------------------
+
+// Send refuses, writing nothing, a record containing the split byte; otherwise
+// it performs exactly one Write of msg followed by the split byte.
+//@ func (split).Send
+//@   requires c.wc != nil
+//@   modifies writes(c.wc), wrLen(c.wc), wrData(c.wc)
+//@   ensures[C11:refuse] exists(i int, 0 <= i && i < len(msg) && msg[i] == c.split) ==> result != nil && writes(c.wc) == old(writes(c.wc))
+//@   ensures[C11:one-write] forall(i int, 0 <= i && i < len(msg) ==> msg[i] != c.split) ==> writes(c.wc) == old(writes(c.wc)) + 1 && wrLen(c.wc) == len(msg) + 1
+//@   ensures[C11:bytes] forall(i int, 0 <= i && i < len(msg) ==> msg[i] != c.split) ==> wrData(c.wc)[len(msg)] == c.split && forall(j int, 0 <= j && j < len(msg) ==> wrData(c.wc)[j] == old(msg[j]))
+
+// Recv returns the bytes up to the next split byte. On error nothing that was
+// consumed is dropped: the unterminated tail is returned intact with the error.
+//@ func (split).Recv
+//@   requires c.buf != nil && 0 <= rdPos(c.buf) && rdPos(c.buf) <= rdLen(c.buf)
+//@   modifies rdPos(c.buf)
+//@   ensures[C11:record] result1 == nil ==> rdPos(c.buf) == old(rdPos(c.buf)) + len(result0) + 1 && rdPos(c.buf) <= rdLen(c.buf)
+//@   ensures[C11:bytes] result1 == nil ==> forall(i int, 0 <= i && i < len(result0) ==> result0[i] == rdIn(c.buf)[old(rdPos(c.buf)) + i] && result0[i] != c.split)
+//@   ensures[C11:terminator] result1 == nil ==> rdIn(c.buf)[old(rdPos(c.buf)) + len(result0)] == c.split
+//@   ensures[C12:no-shortening] result1 != nil ==> len(result0) == rdPos(c.buf) - old(rdPos(c.buf)) && forall(i int, 0 <= i && i < len(result0) ==> result0[i] == rdIn(c.buf)[old(rdPos(c.buf)) + i])
+//@   ensures[C12:drained] result1 != nil ==> rdPos(c.buf) == rdLen(c.buf)
+//@   ensures[C12:exhausted] old(rdPos(c.buf)) == rdLen(c.buf) ==> result1 != nil && len(result0) == 0
+//@   loop 1 invariant rdPos(c.buf) >= old(rdPos(c.buf)) && rdPos(c.buf) <= rdLen(c.buf) && bufLen(buf) == rdPos(c.buf) - old(rdPos(c.buf))
+//@   loop 1 invariant forall(i int, 0 <= i && i < bufLen(buf) ==> bufData(buf)[i] == rdIn(c.buf)[old(rdPos(c.buf)) + i] && bufData(buf)[i] != c.split)
+//@   loop 1 decreases rdLen(c.buf) - rdPos(c.buf)
+
+// ---------------------------------------------------------------------------
+// Header framing (C11, C12)
+// ---------------------------------------------------------------------------
+
+//@ spec isCTMismatch(Iface) Bool
+//@ axiom forall(e Iface, isCTMismatch(e) == typeis(e, "*channel.ContentTypeMismatchError"))
+
+// Recv, body part: once the header block is read and names a length n, the
+// record is exactly the next n bytes of the stream, or an error and no record.
+// A content-type mismatch is reported together with the intact record.
+//@ func (*hdr).Recv
+//@   requires h.rd != nil && 0 <= rdPos(h.rd) && rdPos(h.rd) <= rdLen(h.rd)
+//@   modifies rdPos(h.rd), h.rbuf, mem(h.rbuf)
+//@   ensures[C12:error-no-record] result1 != nil && !isCTMismatch(result1) ==> result0 == nil
+//@   ensures[C12:within-stream] rdPos(h.rd) >= old(rdPos(h.rd)) && rdPos(h.rd) <= rdLen(h.rd)
+//@   ensures[C11:body] result1 == nil || isCTMismatch(result1) ==> len(result0) <= rdPos(h.rd) - old(rdPos(h.rd)) && forall(i int, 0 <= i && i < len(result0) ==> result0[i] == rdIn(h.rd)[rdPos(h.rd) - len(result0) + i])
+//@   ensures[C12:mismatch] isCTMismatch(result1) ==> unboxas(result1, "*channel.ContentTypeMismatchError").Want == h.mtype && unboxas(result1, "*channel.ContentTypeMismatchError").Got != h.mtype
+//@   ensures[C12:exhausted] old(rdPos(h.rd)) == rdLen(h.rd) ==> result1 != nil && result0 == nil
+//@   loop 1 invariant rdPos(h.rd) >= old(rdPos(h.rd)) && rdPos(h.rd) <= rdLen(h.rd)
+//@   loop 1 decreases rdLen(h.rd) - rdPos(h.rd)
+
+// Header / LSP: a mismatch caused by an absent Content-Type is forgiven; any
+// other error, and the record, pass through unchanged.
+//@ func (opthdr).Recv
+//@   requires o.hdr != nil && o.hdr.rd != nil && 0 <= rdPos(o.hdr.rd) && rdPos(o.hdr.rd) <= rdLen(o.hdr.rd)
+//@   modifies rdPos(o.hdr.rd), o.hdr.rbuf, mem(o.hdr.rbuf)
+//@   ensures[C12:error-no-record] result1 != nil && !isCTMismatch(result1) ==> result0 == nil
+//@   ensures[C12:absent-type-ok] isCTMismatch(result1) ==> unboxas(result1, "*channel.ContentTypeMismatchError").Got != ""
+//@   ensures[C11:body] result1 == nil || isCTMismatch(result1) ==> len(result0) <= rdPos(o.hdr.rd) - old(rdPos(o.hdr.rd)) && forall(i int, 0 <= i && i < len(result0) ==> result0[i] == rdIn(o.hdr.rd)[rdPos(o.hdr.rd) - len(result0) + i])
+
+//@ func isNull
+//@   ensures result == (len(msg) == 4 && msg[0] == 'n' && msg[1] == 'u' && msg[2] == 'l' && msg[3] == 'l')
